@@ -27,7 +27,11 @@ func VerifC14Include() {
 	// include argument
 	var rel, arg string
 	b := Bindings{"v": nd.IntIn(0, 9), "s": nd.StringFrom(2, "ab")}
-	switch nd.Choice(5) {
+	switch nd.Choice(7) {
+	case 5:
+		rel, arg = "x.html", "\"x\" | append: \".html\""
+	case 6:
+		rel, arg = "sub/x.html", "\"sub/x.html\""
 	case 0:
 		rel, arg = "x.html", "'x.html'"
 	case 1:
